@@ -104,8 +104,11 @@ func renderScope(s subject, c scopeCase, pkg string) (files map[string]string) {
 		if c.FileD == "dotReal" || c.FileD == "dotFake" {
 			callee = s.Member
 		}
+		if c.FileD == "fakeNamedAs" {
+			callee = "app" + s.Name + "." + s.Member
+		}
 	}
-	namesake := !(c.PkgD == "none" && c.ParamD == "none" && c.LocalD == "none" && c.FileD != "fakeImport" && c.FileD != "dotFake")
+	namesake := !(c.PkgD == "none" && c.ParamD == "none" && c.LocalD == "none" && c.FileD != "fakeImport" && c.FileD != "dotFake" && c.FileD != "fakeNamed" && c.FileD != "fakeNamedAs")
 	trigger := s.Normal
 	if namesake && s.FakeArgs != "" {
 		trigger = s.FakeArgs
@@ -134,6 +137,11 @@ func renderScope(s subject, c scopeCase, pkg string) (files map[string]string) {
 		}
 	case "fakeImport":
 		fmt.Fprintf(&b, "\t%s \"example.com/scopes/fake\"\n", s.Name)
+	case "fakeNamed":
+		// another package whose declared NAME is the std package's name, under its default local name
+		fmt.Fprintf(&b, "\t\"example.com/scopes/fakes/%s\"\n", s.Name)
+	case "fakeNamedAs":
+		fmt.Fprintf(&b, "\tapp%s \"example.com/scopes/fakes/%s\"\n", s.Name, s.Name)
 	case "dotReal":
 		fmt.Fprintf(&b, "\t. %q\n", s.Path)
 	case "dotFake":
@@ -142,7 +150,10 @@ func renderScope(s subject, c scopeCase, pkg string) (files map[string]string) {
 	}
 	b.WriteString(")\n\n")
 	b.WriteString("type R struct{}\n\nvar (\n\tgi int\n\tgs string\n\t_  = fmt2.Sprint\n\t_  = R{}\n)\n\n")
-	if c.FileD == "realImport" || c.FileD == "fakeImport" {
+	if c.FileD == "fakeNamedAs" {
+		fmt.Fprintf(&b, "var _ = app%s.%s\n\n", s.Name, s.Member)
+	}
+	if c.FileD == "realImport" || c.FileD == "fakeImport" || c.FileD == "fakeNamed" {
 		// a use at package level, so that an import shadowed inside the function is not "imported and not used"
 		fmt.Fprintf(&b, "var _ = %s.%s\n\n", s.Name, s.Member)
 	}
@@ -326,6 +337,9 @@ func scopesCmd(args []string) {
 		if r.c.FileD == "dotReal" || r.c.FileD == "dotFake" {
 			calleeName = r.s.Member
 		}
+		if r.c.FileD == "fakeNamedAs" {
+			calleeName = "app" + r.s.Name
+		}
 		o.Src = string(src)
 		trig := map[int]bool{}
 		for i, l := range strings.Split(string(src), "\n") {
@@ -350,6 +364,10 @@ func scopesCmd(args []string) {
 				if ob.Imported().Path() == r.s.Path {
 					o.Resolved = "realImport"
 					o.Real = true
+				} else if ob.Imported().Name() == r.s.Name && ob.Name() == r.s.Name {
+					o.Resolved = "fakeNamed"
+				} else if ob.Imported().Name() == r.s.Name {
+					o.Resolved = "fakeNamedAs"
 				} else {
 					o.Resolved = "fakeImport"
 				}
